@@ -12,7 +12,7 @@
    (Until session 4 the parser model was partial on float literals and the composed theorems carried
    [floats_ok]; the statements with that hypothesis are kept below as corollaries for their clients.) *)
 From Soy Require Import Model.Bytes Model.Outcome Model.Ast Model.Token Model.NumLit Model.ExprParser Model.Parser Model.Lexer Model.ParseBytes.
-From Soy Require Import Generated.Tables Proofs.ParserMeasure Proofs.ParserProofs Proofs.LexerPrim Proofs.LexerProofs.
+From Soy Require Import Generated.Tables Proofs.ParserMeasure Proofs.ParserProofs Proofs.LexerPrim Proofs.LexerProofs Proofs.LexShift.
 From Coq Require Import ZifyBool ZifyNat ZifyN Lia.
 Open Scope N_scope.
 
@@ -75,6 +75,17 @@ Qed.
 Lemma lexq_model_wf : lexq_wf (lexq_model uni_letter uni_digit).
 Proof.
   intros str. destruct (lexq_model_runs str) as (ts & _ & -> & Hs). apply scan_items_wf_all. exact Hs.
+Qed.
+
+(* what Model/Parser.v hands to the nested parse -- the expression-mode scanner's items shifted by base --
+   is exactly what the scanner model started at that base (lexExprAt) sends *)
+Lemma nested_scanner_at_base (base : N) str :
+  lex_items_at uni_letter uni_digit (Z.of_N base) (lex_budget str) str
+  = Ok (map (shift_tok base) (lexq_model uni_letter uni_digit str)).
+Proof.
+  destruct (lexq_model_runs str) as (ts & H1 & -> & _).
+  rewrite (lex_items_at_shift _ _ (Z.of_N base) _ _ _ ltac:(lia) H1). f_equal.
+  unfold shift_items. apply map_ext. intros t. unfold sh, shift_tok. rewrite N2Z.id. reflexivity.
 Qed.
 
 Variable unq : bstr -> option bstr.        (* strconv.Unquote: arbitrary *)
